@@ -1163,6 +1163,7 @@ def draw_config(rng):
         'meta_p': rng.choice([0.0, 0.6, 1.0]),
         'mode': rng.choice(['clean', 'clean', 'writefault', 'writefault', 'damage', 'damage', 'readfault', 'indexed']),
         'calc_ct': rng.random() < 0.5,
+        'multiline_p': rng.choice([0.0, 0.0, 0.3, 0.6]),
     }
 
 
